@@ -51,7 +51,7 @@ man = {
         "guard": "asca_verif",
         "enable": "none needed: the checks add no instrumentation to /repo; facts are extracted with `cargo +nightly check` and RUSTC_WORKSPACE_WRAPPER=/verif/driver/target/release/asca-facts",
         "baseline_off_cmd": "cd /repo && cargo test --workspace --no-fail-fast --offline",
-        "source_commits": ["17ac8f7", "adea19f", "a8abec9", "64cbbb0", "8735a3e", "9f2da96", "f94a4cd", "3e80556", "30ef3de", "8c6f942", "abe039b", "6358128", "9bad5b8", "c37235d", "b75ea0e", "257d9ce", "d014bb6", "52a38d2", "113b5d4", "2a88e7e", "453741f", "e1227f5", "0ca6394", "750e3d0", "2adeed1", "5c4664a", "cdb800c", "ef24a63", "7108abb", "32f3d2f", "4c88210"],
+        "source_commits": ["17ac8f7", "adea19f", "a8abec9", "64cbbb0", "8735a3e", "9f2da96", "f94a4cd", "3e80556", "30ef3de", "8c6f942", "abe039b", "6358128", "9bad5b8", "c37235d", "b75ea0e", "257d9ce", "d014bb6", "52a38d2", "113b5d4", "2a88e7e", "453741f", "e1227f5", "0ca6394", "750e3d0", "2adeed1", "5c4664a", "cdb800c", "ef24a63", "7108abb", "32f3d2f", "4c88210", "9b1a1e0"],
         "add_only": True,
     },
     "engines": [
